@@ -722,3 +722,19 @@ def new_int_dict(c, name):
     has = z3.K(z3.IntSort(), z3.BoolVal(False))
     val = z3.K(z3.IntSort(), z3.IntVal(0))
     return SDict(has, val, z3.IntVal(0), lambda k: _iz(k), lambda t: SInt(t), lambda v: _iz(v))
+
+
+def str_dict(c, name, val_sort=None, vwrap=None, vun=None, wf=True):
+    """pre-state dict with string keys (symbolic mode only): arbitrary key set, opaque values."""
+    from .proxies import SStr, _sz
+    vs = val_sort if val_sort is not None else z3.IntSort()
+    has = z3.Array(c.fresh_name(name + ".has"), z3.StringSort(), z3.BoolSort())
+    val = z3.Array(c.fresh_name(name + ".val"), z3.StringSort(), vs)
+    size = z3.Int(c.fresh_name(name + ".size"))
+    d = SDict(has, val, size, lambda k: _sz(k), vwrap or (lambda t: SVal(t)), vun or (lambda v: v.t if isinstance(v, SVal) else v),
+              enum=z3.Array(c.fresh_name(name + ".enum"), z3.IntSort(), z3.StringSort()),
+              idx=z3.Array(c.fresh_name(name + ".idx"), z3.StringSort(), z3.IntSort()))
+    if wf:
+        c.assume_z3(d.wf())
+        c.use_model("dict model: len == number of keys (SDict.wf)")
+    return d
